@@ -232,7 +232,8 @@ TypeOK == /\ now \in Nat
           /\ \A i \in 1..Len(out) : out[i].id \in REQ /\ out[i].k \in {"resp", "timeout"}
 
 \* never two events for one request
-AtMostOne == \A i, j \in 1..Len(out) : out[i].id = out[j].id => i = j
+AtMostOne == Cardinality({out[i].id : i \in 1..Len(out)}) = Len(out)
+             \* i.e.  \A i, j \in 1..Len(out) : out[i].id = out[j].id => i = j
 
 \* never neither (safety half): while running an accepted request is in flight or answered -
 \* not both - and nothing in flight is overdue
